@@ -13,7 +13,6 @@ Answer: `timex TAB futureBegin TAB futureEnd TAB pastBegin TAB pastEnd` | `none`
   dp.datetodp fd pd dateTimex tod early late pfb pfe ppb ppe
   dp.dur Y M D secs swiftSeconds durTimex prevBefore withinBefore withinAfter futureBefore prevAfter futureAfter futureSuffixAfter
   dp.rel Y M D secs D|H|M|S past
-  dp.prefix fd dateTimex early|mid|late
   dp.table tod                          -> timeStr beginHour endHour endMin
   dp.span diffSeconds                   -> luis_time_span text -/
 namespace RTV.Drv.DtPeriodH
@@ -32,10 +31,6 @@ def parseEnds (f : String) : Ends :=
 def parseRel (f : String) : RelUnit :=
   match f with
   | "D" => .D | "H" => .H | "M" => .M | _ => .S
-
-def parsePart (f : String) : DayPart :=
-  match f with
-  | "early" => .early | "mid" => .mid | _ => .late
 
 def showC (r : Res × Bool) : String := s!"{showRes r.1}\t{showBool r.2}"
 
@@ -62,7 +57,6 @@ def dispatchDtPeriod (op : String) (args : List String) : Option String :=
     some (showRes (parseDuration (mkDT y m d s) (parseNat sw) (tx dt)
       ⟨parseBool f1, parseBool f2, parseBool f3, parseBool f4, parseBool f5, parseBool f6, parseBool f7⟩))
   | "dp.rel", [y, m, d, s, u, p] => some (showRes (relativeUnit (mkDT y m d s) (parseRel u) (parseBool p)))
-  | "dp.prefix", [fd, dt, p] => some (showRes (datePeriodPrefix (parseDT fd) (tx dt) (parsePart p)))
   | "dp.table", [tod] =>
     let v := (parseTod tod).range
     some s!"{toString' v.timeStr}\t{v.beginHour}\t{v.endHour}\t{v.endMin}"
